@@ -8,7 +8,10 @@
                    bookkeeping allow-list of Model/C18_SiteShape.v -- CHECKED: [guard_shape_ok] holds (C18_guards_checked).
    DualUnmodelled: the branches differ in value-carrying statements and there is no model: covered only by the
                    forced-branch program differential and the eager-vs-torch.compile differential (listed by name in the
-                   evidence).  nn-module plumbing and tensorclass plumbing live here. *)
+                   evidence).  nn-module plumbing and tensorclass plumbing live here.
+   No longer sites (the function does not ask is_compiling() any more; a re-appearance makes C18_sites_classified fail):
+     _td.py TensorDict.__init__ and the TensorDict.names setter (repair D1801), base.py TensorDictBase.consolidate
+     (repair D1803: one clone condition on both paths). *)
 From Coq Require Import List String Bool.
 Import ListNotations.
 From TD Require Import Model.C18_SiteShape.
@@ -21,11 +24,10 @@ Definition classified : list ((string * string) * site_class) :=
   (("_contextlib.py", "_reverse_to_module"), DualUnmodelled);      (* eager unlocks the swap destination, compile does not *)
   (("_lazy.py", "LazyStackedTensorDict._propagate_lock"), Guard);
   (("_lazy.py", "_CustomOpTensorDict._propagate_lock"), Guard);
-  (("_td.py", "TensorDict.__init__"), DualModelled);               (* C18_Names: compile skips `self.names = names` *)
-  (("_td.py", "TensorDict._new_unsafe"), DualModelled);            (* C18_Names: compile falls back to __init__ *)
+  (("_td.py", "TensorDict._make_memmap_subtd"), Guard);            (* hands the flag on to _propagate_lock (repair D69) *)
+  (("_td.py", "TensorDict._new_unsafe"), DualModelled);            (* C18_Names: compile falls back to __init__ (validating setter) *)
   (("_td.py", "TensorDict._parse_batch_size"), DualModelled);
   (("_td.py", "TensorDict._to_module"), DualUnmodelled);           (* nn plumbing: __dict__ fast path vs setattr *)
-  (("_td.py", "TensorDict.names"), DualModelled);                  (* C18_Names: compile returns early on None *)
   (("_td.py", "_SubTensorDict._propagate_lock"), Guard);
   (("_torch_func.py", "_cat"), Guard);
   (("_torch_func.py", "_stack.stack_fn"), Guard);
@@ -34,7 +36,6 @@ Definition classified : list ((string * string) * site_class) :=
   (("base.py", "TensorDictBase._propagate_lock"), Guard);
   (("base.py", "TensorDictBase._sync_all"), Guard);
   (("base.py", "TensorDictBase._values_list"), DualModelled);
-  (("base.py", "TensorDictBase.consolidate"), DualUnmodelled);     (* is_contiguous() vs stride[-1] != 1 or storage_offset() *)
   (("base.py", "TensorDictBase.lock_"), Guard);
   (("base.py", "TensorDictBase.unflatten_keys"), Guard);
   (("base.py", "_is_tensor_collection"), DualModelled);            (* C18_Memo *)
@@ -63,7 +64,7 @@ Definition classified : list ((string * string) * site_class) :=
   (("utils.py", "_getitem_batch_size"), DualModelled);
   (("utils.py", "_is_non_tensor"), DualModelled);                  (* C18_Memo *)
   (("utils.py", "_is_tensorclass"), Guard);
-  (("utils.py", "_parse_to"), DualUnmodelled);                     (* known finding D1802: positional dtype under compile *)
+  (("utils.py", "_parse_to"), DualUnmodelled);                     (* native parser vs its Python transcription _parse_to_py (repair D1802): grid differential *)
   (("utils.py", "_pass_through_cls"), DualModelled);               (* C18_Memo *)
   (("utils.py", "_unravel_key_to_tuple"), DualModelled);
   (("utils.py", "cache.newfun"), DualModelled);                    (* C18_Memo: cache consulted only when locked and not compiling *)
